@@ -5,14 +5,15 @@ namespace TT.Driver
 open TT TT.H1
 
 /-- concrete head parser used for the correspondence runs on *valid* generated heads: the head
-ends at the first CRLF CRLF (httparse agrees on these heads; invalid heads are judged by the
-harness oracle only) -/
-def findCrlfCrlf : Bytes → Nat → Option Nat
-  | 13 :: 10 :: 13 :: 10 :: _, i => some (i + 4)
-  | _ :: rest, i => findCrlfCrlf rest (i + 1)
+ends with its first empty line, lines ending in CR LF or in a bare LF (httparse takes both and agrees
+on these heads; invalid heads are judged by the harness oracle only) -/
+def findHeadEnd : Bytes → Nat → Option Nat
+  | 10 :: 13 :: 10 :: _, i => some (i + 3)
+  | 10 :: 10 :: _, i => some (i + 2)
+  | _ :: rest, i => findHeadEnd rest (i + 1)
   | [], _ => none
 
-def crlfParser : Parser := ⟨fun b => match findCrlfCrlf b 0 with
+def crlfParser : Parser := ⟨fun b => match findHeadEnd b 0 with
   | some idx => .complete idx
   | none => .incomplete⟩
 
